@@ -123,6 +123,9 @@ type Action struct {
 	// Omit: a Logon that lacks EncryptMethod ("enc"), HeartBtInt ("hb") or both ("both"); for the specification the same as an
 	// empty method / an interval of 0
 	Omit string `json:"omit"`
+	// Pipe (wire histories): this inbound message and the Pipe messages that follow it are written to the connection in ONE write;
+	// what comes back is attributed by content (a Reject by its RefSeqNum, a Heartbeat by its TestReqID, a Logout to the Logout)
+	Pipe bool `json:"pipe"`
 }
 
 func (a *Action) norm() {
@@ -136,6 +139,9 @@ func (a *Action) norm() {
 		a.ID = []int{}
 	}
 }
+
+// IDBytes exposes idBytes.
+func IDBytes(id []int) []byte { return idBytes(id) }
 
 func idBytes(id []int) []byte {
 	b := make([]byte, len(id))
